@@ -167,7 +167,7 @@ pub fn generate(a: &Args) {
       ev["kind"] = json!("missing"); ev["parsed"] = json!(false); ev["res"] = json!([]); ev["res_n"] = json!(0); ev["rows"] = json!([]); ev["n"] = json!(0);
       out.ev("Sys", "ok", ev); }
     // encode
-    for i in 0..(if th { 60 } else { 18 }) {
+    for i in 0..(if th { 72 } else { 36 }) {
         out.new_case();
         let ncw = [12usize, 24, 18][i % 3];
         let r0 = ncw / 3;
@@ -182,12 +182,15 @@ pub fn generate(a: &Args) {
         let pat = ["", "1,1,0", "1,1,1,0,1,1", "1,0,1,1,1"][(i / 2) % 4];
         let mut args = vec![s("encode"), format!("enc{i}.alist"), format!("enc{i}.in"), format!("enc{i}.out")];
         if !pat.is_empty() { args.push(s("--puncturing")); args.push(s(pat)); }
+        // malformed patterns (must give a clean failure): the empty string, a trailing comma, a blank, a letter
+        let bad = if i % 6 == 5 { Some(["", "1,1,0,", " ", "1,x", "1,,0", "2"][(i / 6) % 6]) } else { None };
+        if let Some(b) = bad { if pat.is_empty() { args.push(s("--puncturing")); } else { args.pop(); } args.push(s(b)); }
         let _ = std::fs::remove_file(format!("{work}/enc{i}.out"));
         let r = run_cli(&work, &args, 60);
         let outb = std::fs::read(format!("{work}/enc{i}.out")).unwrap_or_default();
         // library reference
         let patv: Option<Vec<bool>> = if pat.is_empty() { None } else { Some(pat.split(',').map(|t| t == "1").collect()) };
-        let fits = patv.as_ref().map(|p| ncw % p.len() == 0).unwrap_or(true);
+        let fits = bad.is_none() && patv.as_ref().map(|p| ncw % p.len() == 0).unwrap_or(true);
         let mut reference: Vec<u8> = vec![];
         if fits {
             let enc = Encoder::from_h(&h).unwrap();
@@ -198,7 +201,7 @@ pub fn generate(a: &Args) {
             }
         }
         let mut ev = base_ev(&args, &r);
-        ev["fits"] = json!(fits); ev["words"] = json!(words); ev["out"] = json!(outb); ev["ref"] = json!(reference); ev["pat"] = json!(pat);
+        ev["fits"] = json!(fits); ev["words"] = json!(words); ev["out"] = json!(outb); ev["ref"] = json!(reference); ev["pat"] = json!(bad.unwrap_or(pat)); ev["malformed"] = json!(bad.is_some());
         out.ev("Encode", "ok", ev);
     }
     // ber: one result line per requested Eb/N0
